@@ -77,6 +77,37 @@ theorem call_consumption (g : Gen) (nShuffle : Nat) (rounds : List Nat) (nTasks 
   · rename_i h0; subst h0; simp [hd]
   · simp [drawn, spawned, hd]; omega
 
+/-- one in-memory call consumes the same uniforms from the parent **and in addition** the `nMvn` variates of the linear-parameter
+draws; it spawns nothing -/
+theorem inmem_call_consumption (g : Gen) (nShuffle : Nat) (rounds : List Nat) (nMvn : Nat) :
+    (run g (inmemCallEvents nShuffle rounds nMvn)).1.pos = g.pos + nShuffle + rounds.sum + nMvn ∧
+    (run g (inmemCallEvents nShuffle rounds nMvn)).1.ss.nSpawned = g.ss.nSpawned := by
+  have h := parent_stream_advances g (inmemCallEvents nShuffle rounds nMvn)
+  have hd : ∀ l : List Nat, drawn (l.map Ev.draw ++ [Ev.draw nMvn]) = l.sum + nMvn ∧
+      spawned (l.map Ev.draw ++ [Ev.draw nMvn]) = 0 := by
+    intro l
+    induction l with
+    | nil => simp [drawn, spawned]
+    | cons a r ih => simp [drawn, spawned, ih]; omega
+  rw [h.2.1, h.2.2]
+  unfold inmemCallEvents
+  split
+  · rename_i h0; subst h0; simp [hd]; omega
+  · simp [drawn, spawned, hd]; omega
+
+/-- **the known finding `C05-parent-generator-consumption-differs-by-path`, stated on the model**: after ONE call with equal
+seeds, the parent generator of the in-memory path is `nMvn` variates further than that of the cache-file path, so (whenever at
+least one sample was accepted, `nMvn > 0`) the uniforms of the NEXT call are different numbers on the two families of paths -
+although the first calls saw the same ones -/
+theorem parent_position_after_one_call_differs_by_path (g : Gen) (nShuffle : Nat) (rounds : List Nat) (nTasks nMvn : Nat)
+    (h : 0 < nMvn) :
+    (run g (inmemCallEvents nShuffle rounds nMvn)).1.pos
+        = (run g (fileCallEvents nShuffle rounds nTasks)).1.pos + nMvn ∧
+    (run g (inmemCallEvents nShuffle rounds nMvn)).1.pos ≠ (run g (fileCallEvents nShuffle rounds nTasks)).1.pos := by
+  have h1 := (inmem_call_consumption g nShuffle rounds nMvn).1
+  have h2 := (call_consumption g nShuffle rounds nTasks).1
+  constructor <;> omega
+
 /-- if different seed-sequence keys give different streams (numpy's contract for `SeedSequence`, modelled),
 then the first variates of all children — across batches and across successive calls — are pairwise
 different: linear-parameter draws are never repeated -/
